@@ -12,3 +12,6 @@ import AGV.Props.C12
 #print axioms AGV.Props.C12.c12_directives_walk_after_depth_check
 #print axioms AGV.Props.C12.c12_prechecks_never_overflow
 #print axioms AGV.Props.C12.c12_prechecks_order_needed
+#print axioms AGV.Props.C12.c12_unbounded_nesting_document
+#print axioms AGV.Props.C12.c12_unbounded_nesting_document_depth
+#print axioms AGV.Props.C12.c12_parser_depth_unbounded
